@@ -47,6 +47,18 @@ bool ops_bias(Ctx &c, Toks const &t)
     c.out("err", itok(c.proxy->all_errors.find("still outside boundaries") != std::string::npos ? 1 : 0));
     return true;
   }
+  if (t[0] == "v.force") {      // v.force <variable>: value, force on the variable, z-force the engine got for the variable's first atom
+    colvar *cv = cvm::colvar_by_name(t[1]);
+    if (!cv) { c.out("vx", "snone"); return true; }
+    c.out("vx", ftok(cv->value().real_value));
+    c.out("vf", ftok(cv->applied_force().real_value));
+    double fz = 0.0;
+    std::vector<int> const &ids = *(c.proxy->get_atom_ids());
+    int const aid = (int) i_of(t.size() > 2 ? t[2] : std::string("0"));
+    for (size_t i = 0; i < ids.size(); i++) if (ids[i] == aid) fz += (*(c.proxy->modify_atom_applied_forces()))[i].z;
+    c.out("vfz", ftok(fz));
+    return true;
+  }
   if (t[0] == "b.force") {      // b.force <bias>: the force of this bias on each of its variables (scalar components)
     colvarbias *b = cvm::bias_by_name(t[1]);
     if (!b) { c.out("bf", "snone"); return true; }
